@@ -1,15 +1,70 @@
-//! kv-vec: conformance harness crate (see /verif/DESIGN.md).
+//! kv-vec: conformance harness for the function-style specifications
+//! (spec/Rov.tla for C17, spec/ConfigValidation.tla for C05); see
+//! /verif/DESIGN.md.
 #![allow(dead_code)]
 
 #[path = "../../harness/src/common.rs"]
 mod common;
+mod rov;
+mod cfgval;
+
+use std::path::PathBuf;
+
+fn arg(args: &[String], name: &str) -> Option<String> {
+    args.iter().position(|a| a == name).and_then(|i| args.get(i + 1)).cloned()
+}
+
+fn flag(args: &[String], name: &str) -> bool {
+    args.iter().any(|a| a == name)
+}
+
+/// A panic outside a guarded call into krill is a bug of the harness.
+fn own(res: common::Outcome<()>) {
+    match res {
+        common::Outcome::Ok(()) => { }
+        common::Outcome::Panic(m) | common::Outcome::Crash(m) => {
+            eprintln!("harness panicked: {m}");
+            std::process::exit(3);
+        }
+    }
+}
 
 fn main() {
     common::install_panic_hook();
     let args: Vec<String> = std::env::args().collect();
+    let input = arg(&args, "--in").map(PathBuf::from);
+    let out = arg(&args, "--out").map(PathBuf::from);
+    let work = arg(&args, "--work").map(PathBuf::from);
     match args.get(1).map(|s| s.as_str()).unwrap_or("") {
+        "rov" => {
+            let depth: usize = arg(&args, "--depth").and_then(|s| {
+                s.parse().ok()
+            }).unwrap_or(2);
+            own(common::guarded(|| rov::run(
+                &input.unwrap(), &out.unwrap(), &work.unwrap(),
+                &PathBuf::from(arg(&args, "--restr").unwrap()), depth,
+                arg(&args, "--emb").as_deref(),
+            )));
+        }
+        "rov-explain" => {
+            let depth: usize = arg(&args, "--depth").and_then(|s| {
+                s.parse().ok()
+            }).unwrap_or(2);
+            for case in common::read_ndjson(&input.unwrap()) {
+                rov::explain(&case, depth);
+            }
+        }
+        "cfgval" => {
+            own(common::guarded(|| cfgval::run(
+                &input.unwrap(), &out.unwrap(), &work.unwrap(),
+                flag(&args, "--verbose"),
+            )));
+        }
         _ => {
-            eprintln!("usage: kv-vec <subcommand> --in <behaviours.ndjson> --out <trace.ndjson> --work <dir>");
+            eprintln!(
+                "usage: kv-vec <rov|rov-explain|cfgval> --in <cases.ndjson> \
+                 --out <trace.ndjson> --work <dir> [options]"
+            );
             std::process::exit(2);
         }
     }
